@@ -26,7 +26,8 @@ RULE = ('Generated positive equity curves of length 2-600 on business-day date i
         'Sharpe/Sortino = sqrt(252) x mean / population deviation of all / negative returns (asserted only when that '
         'deviation is >= 1e-6 x max|return|); all statistics unchanged when equity is multiplied by 2^k (bit-exact) '
         'or by an arbitrary positive constant (1e-9); TearsheetStatistics.get_results and JSONStatistics agree on '
-        'every common number and series and to_file()/json.load round-trips. Non-trivial = >= 1 strictly under-water '
+        'every common number and series and to_file()/json.load round-trips; in half the cases a benchmark curve on the '
+        'same dates is supplied and the benchmark section is checked against its own oracle. Non-trivial = >= 1 strictly under-water '
         'date, >= 2 calendar months and not monotone-up.')
 ASSUMPTIONS = [
     'positive equity, business-day date index (datetime.date) as produced by get_equity_curve()',
